@@ -257,6 +257,45 @@ func progFanInN(n int) *Program {
 	return p
 }
 
+// n steps waiting for one gate step, all feeding one output
+func progGateFanOut(n int) *Program {
+	p := &Program{Name: fmt.Sprintf("gatefanout%d", n), Steps: []Step{pstep("g", O("v", E("$.input.n")))}}
+	var fields []any
+	for i := 0; i < n; i++ {
+		id := fmt.Sprintf("w%02d", i)
+		p.Steps = append(p.Steps, Step{ID: id, Input: O("v", I(int64(i))), WaitFor: E("$.steps.g.outputs.success")})
+		fields = append(fields, "f"+id, E(sv(id)))
+	}
+	p.Outputs = []Output{{"success", O(fields...)}}
+	return p
+}
+
+// two outputs that become producible in the same round, with different data of the same shape
+func progTwoReady() *Program {
+	return &Program{Name: "twoready", Steps: []Step{pstep("a", O("v", E("$.input.n")))},
+		Outputs: []Output{
+			{"success", O("r", E(ss("a")))},
+			{"verbose", O("r", E("toUpper("+ss("a")+")"))}}}
+}
+
+// a stop condition that is an (empty) object: the started output of another step
+func progStopStarted() *Program {
+	return &Program{Name: "stopstarted", Steps: []Step{
+		pstep("t", O("v", E("$.input.n"))),
+		{ID: "a", Input: O("v", I(1)), StopIf: E("$.steps.t.starting.started"), WaitFor: E("$.steps.t.outputs.success")},
+	}, Outputs: []Output{
+		{"ran", O("r", E(sv("a")))},
+		{"closed", O("c", E("$.steps.a.closed.result.cancelled"), "t", E(sv("t")))}}}
+}
+
+// a list that starts with a literal and continues with an expression
+func progLitExprList() *Program {
+	return &Program{Name: "litexprlist", Steps: []Step{pstep("a", O("v", E("$.input.n"))), pstep("b", O("v", I(2)))},
+		Outputs: []Output{
+			{"success", O("l", List{[]Node{Str("lit"), E(ss("a"))}}, "b", E(sv("b")))},
+			{"failed", O("e", E("$.steps.a.outputs.error.error"), "l", List{[]Node{Str("x"), E(ss("b"))}})}}}
+}
+
 // unrelated never-ending step next to a failing chain
 func progUnrelatedHang() *Program {
 	return &Program{Name: "unrelatedhang", Steps: []Step{
@@ -465,6 +504,7 @@ func catalogue() []*Program {
 		progLoopSibling(),
 		progDeployDep(), progDeployDepStop(), progWaitForList(), progWaitForListLoop(), progLoopItemsFrom(),
 		progNoSig(progChain(2), "chain2-nosig"), progNoSig(progFanIn(), "fanin-nosig"),
+		progTwoReady(), progStopStarted(), progLitExprList(),
 		progSumExpr(), progSumExpr2(), progSumInts(), progStopEnable(),
 		progEnabledLit("enabledlit-false", false), progEnabledLit("enabledlit-true", true), progEnabledLit("enabledlit-no", "no"),
 		progForeachEnabledLit("loopenabledlit-true", true), progForeachEnabledLit("loopenabledlit-off", "off"),
